@@ -13,7 +13,8 @@
 (*                                                                                *)
 (* A case is  [kind |-> "match", a1 : Seq(Int), a2 : Seq(Int), f : <<>>]          *)
 (*        or  [kind |-> "dedup", a1 : Seq(Int), a2 : <<>>,     f : Seq(Int)]      *)
-(* (the model adds  reps : Seq(representation record) ).                          *)
+(* (the model adds  reps : Seq(representation record) ), or a SCALE case whose     *)
+(* arrays are given by generators (section "scale": laws and linear-time clauses).*)
 (* An observation is                                                              *)
 (*   [fn : STRING, err : "none" | "rejected", i1, i2 : Seq(Int), vals : Seq(Int)] *)
 (* with 0-based indices exactly as returned.  fn is one of                        *)
@@ -247,6 +248,201 @@ AMDesignRep(c, g) ==
           o1 == AMPick(AMOrdersFor(t1, l1), g6)          g7 == g6 \div 2
           o2 == AMPick(AMOrdersFor(t2, l2), g7)
       IN [t1 |-> t1, t2 |-> t2, p1 |-> p1, p2 |-> p2, o1 |-> o1, o2 |-> o2, l1 |-> l1, l2 |-> l2]
+
+\* =================================================================================
+\* Scale: laws that decide large cases from small ones, and linear-time clauses
+\* =================================================================================
+\* Behaviour that appears only beyond some size (a second array of 10^6 elements, a first
+\* array filling most of a narrow integer type) cannot be enumerated, but
+\*  (L1) the clauses of match can be evaluated in (log-)linear time            - AMLinMatchFailing,
+\*       and say exactly what the clauses above say                           - theorem LinearAgrees;
+\*  (L2) matching distributes over concatenation of the second array:
+\*       Match(a1, x \o y) = Match(a1, x) \o Shift(Match(a1, y), Len(x))      - theorem ConcatLaw;
+\*  (L3) hence the result for a PERIODIC second array (a block B repeated r times plus the
+\*       first t elements of B) is the result for B repeated with shifted indices plus the
+\*       result for the prefix, "ordered by position in the second array" says that the
+\*       blocks come out in order, and a result can be judged from its block run-length
+\*       encoding: one entry [b0, cnt, i1, i2] per maximal group of cnt consecutive blocks
+\*       b0, b0+1, .. whose entries are identical relative to the block start
+\*       - AMBlockRLE, AMBlockMatchFailing, theorem BlockJudgeAgrees;
+\*  (L4) "exactly one index per distinct value (carrying the largest flag)" is decided by
+\*       counting classes, for arrays whose classes are known positions - AMGenDedupFailing,
+\*       theorem GenDedupAgrees.
+\* All theorems are invariants of ArrayMatchMC, checked on the small scope.
+\*
+\* Large arrays are given by GENERATORS  g = [n, w, m, s, o, st, rev]:
+\*   element i (1..n) =  o + st * ((k * m + s) % w),  k = i - 1  (rev: k = n - i)
+\* with gcd(m, w) = 1: w distinct values o, o+st, .. in a scrambled cyclic order (m = 1,
+\* s = 0: ascending; rev: descending); n = w for a first array (all distinct); a second array
+\* has n >= w: period w, w <= 2000 values from below to above the first array's.
+AMGenAt(g, i) == g.o + g.st * ((((IF g.rev THEN g.n - i ELSE i - 1) * g.m) + g.s) % g.w)
+AMGenSeq(g) == [i \in 1..g.n |-> AMGenAt(g, i)]
+\* v is an element (n >= w)
+AMGenHas(g, v) == v >= g.o /\ (v - g.o) % g.st = 0 /\ (v - g.o) \div g.st < g.w
+AMGcd1(a, b) == VGcd(a, b) = 1
+AMGenOK(g) == /\ g.n >= 1 /\ g.w >= 1 /\ g.m >= 1 /\ g.s >= 0 /\ g.st >= 1 /\ AMGcd1(g.m, g.w)
+              /\ g.n <= 1100000 /\ g.m <= 1000 /\ g.w <= 1100000 /\ g.s <= 1100000      \* 32-bit arithmetic
+
+\* (L1) the clauses of AMMatchFailing for a first array WITHOUT repeats given by its element
+\* function A1 (1..n1) and membership test Has1, a second array A2 (1..n2)
+AMLinMatchFailing(A1(_), n1, Has1(_), A2(_), n2, o) ==
+    IF o.err # "none" THEN {"unexpected_error"}
+    ELSE IF Len(o.i1) # Len(o.i2) THEN {"index_arrays_differ_in_length"}
+    ELSE IF ~(AMIdxInRange(o.i1, n1) /\ AMIdxInRange(o.i2, n2)) THEN {"index_out_of_range"}
+    ELSE LET listed == {o.i2[k] : k \in DOMAIN o.i2}
+         IN (IF \A k \in DOMAIN o.i1 : A1(o.i1[k] + 1) = A2(o.i2[k] + 1) THEN {} ELSE {"pair_elements_unequal"}) \cup
+            (IF \A j \in 1..n2 : Has1(A2(j)) => (j - 1) \in listed THEN {} ELSE {"matching_element_missing"}) \cup
+            (IF Cardinality(listed) = Len(o.i2) THEN {} ELSE {"element_appears_twice"}) \cup
+            (IF \A k \in 1..(Len(o.i2) - 1) : o.i2[k] <= o.i2[k + 1] THEN {} ELSE {"not_ordered_by_second_array"})
+
+\* (L2)
+AMShift(r, d) == [i1 |-> r.i1, i2 |-> [k \in DOMAIN r.i2 |-> r.i2[k] + d]]
+AMCat(r, q) == [i1 |-> r.i1 \o q.i1, i2 |-> r.i2 \o q.i2]
+
+\* (L3) block run-length encoding of a result (i1, i2) for period P: the MAPPING the harness
+\* applies to a large result before it is judged
+RECURSIVE AMBlockGroups(_, _, _, _)
+\* groups of consecutive entries lying in the same block: <<[b, i1, i2 (relative)]>>
+AMBlockGroups(i1, i2, P, k) ==
+    IF k > Len(i2) THEN <<>>
+    ELSE LET b == i2[k] \div P
+             RECURSIVE upto(_)
+             upto(m) == IF m < Len(i2) /\ i2[m + 1] \div P = b THEN upto(m + 1) ELSE m
+             e == upto(k)
+         IN <<[b |-> b, i1 |-> SubSeq(i1, k, e), i2 |-> [j \in 1..(e - k + 1) |-> i2[k + j - 1] - b * P]]>>
+            \o AMBlockGroups(i1, i2, P, e + 1)
+RECURSIVE AMMergeGroups(_, _)
+AMMergeGroups(gs, acc) ==
+    IF gs = <<>> THEN acc
+    ELSE LET g == Head(gs)
+             last == IF acc = <<>> THEN [b0 |-> 0, cnt |-> 0, i1 |-> <<>>, i2 |-> <<>>] ELSE acc[Len(acc)]
+         IN IF acc # <<>> /\ g.b = last.b0 + last.cnt /\ g.i1 = last.i1 /\ g.i2 = last.i2
+            THEN AMMergeGroups(Tail(gs), [acc EXCEPT ![Len(acc)].cnt = @ + 1])
+            ELSE AMMergeGroups(Tail(gs), Append(acc, [b0 |-> g.b, cnt |-> 1, i1 |-> g.i1, i2 |-> g.i2]))
+AMBlockRLE(i1, i2, P) == AMMergeGroups(AMBlockGroups(i1, i2, P, 1), <<>>)
+
+\* an observation of a large match: [fn, err, nrle, rle] with rle = the first entries of the
+\* encoding (all of them when nrle = Len(rle); the harness keeps at most 16).
+\* The second array is A2 on 1..P (one block), repeated r times, then its first t elements.
+AMBlockMatchFailing(A1(_), n1, Has1(_), A2(_), P, r, t, o) ==
+    IF o.err # "none" THEN {"unexpected_error"}
+    ELSE LET pat(run) == [err |-> "none", i1 |-> run.i1, i2 |-> run.i2]
+             lastb(run) == run.b0 + run.cnt - 1
+             mfull == \E j \in 1..P : Has1(A2(j))
+             mtail == \E j \in 1..t : Has1(A2(j))
+             expected == (IF mfull THEN r ELSE 0) + (IF mtail THEN 1 ELSE 0)
+             inrange(run) == run.b0 >= 0 /\ run.cnt >= 1 /\ lastb(run) <= (IF t > 0 THEN r ELSE r - 1)
+             order == IF \A k \in 1..(Len(o.rle) - 1) : o.rle[k + 1].b0 >= o.rle[k].b0 + o.rle[k].cnt
+                      THEN {} ELSE {"not_ordered_by_second_array"}
+         IN \* a cut encoding: by (L3) an accepted result has at most two entries, so some clause is violated;
+            \* the entries that were kept still show whether the blocks come out in order
+            IF o.nrle # Len(o.rle) THEN {"result_not_block_periodic"} \cup order
+            ELSE
+            UNION {IF ~inrange(o.rle[k]) THEN {"index_out_of_range"}
+                   ELSE (IF o.rle[k].b0 < r THEN AMLinMatchFailing(A1, n1, Has1, A2, P, pat(o.rle[k])) ELSE {}) \cup
+                        (IF lastb(o.rle[k]) = r THEN AMLinMatchFailing(A1, n1, Has1, A2, t, pat(o.rle[k])) ELSE {})
+                   : k \in DOMAIN o.rle} \cup
+            \* "ordered by position in the second array": the blocks come out in order, each once
+            order \cup
+            \* every block that has a matching element is there
+            (IF VSum([k \in DOMAIN o.rle |-> o.rle[k].cnt]) < expected
+               THEN {"matching_element_missing"} ELSE {})
+
+\* (L4) de-duplication of a generated array: the class of position i is its value; the
+\* positions of a class are known.  arr: generator with m = 1 and
+\*   struct = "cyclic": element i = o + st * ((i - 1 + s) % w)           (duplicates interleaved)
+\*   struct = "runs"  : element i = o + st * (((i - 1) \div q + s) % w), q = ceil(n / w)  (runs of equal values)
+\* flags: any generator of the same length.
+AMGenQ(g) == (g.n + g.w - 1) \div g.w
+AMGenClass(g, i) == IF g.struct = "cyclic" THEN (i - 1 + g.s) % g.w ELSE (((i - 1) \div AMGenQ(g)) + g.s) % g.w
+AMGenArrAt(g, i) == g.o + g.st * AMGenClass(g, i)
+AMGenNClasses(g) == IF g.struct = "cyclic" THEN VMin2(g.w, g.n) ELSE (g.n + AMGenQ(g) - 1) \div AMGenQ(g)
+AMGenClassPositions(g, cl) ==
+    IF g.struct = "cyclic"
+    THEN LET i0 == ((cl - g.s) % g.w) + 1 IN {i0 + k * g.w : k \in 0..((g.n - i0) \div g.w)}
+    ELSE LET b == (cl - g.s) % g.w IN (b * AMGenQ(g) + 1)..VMin2((b + 1) * AMGenQ(g), g.n)
+\* the first per positions of a class: flags generated with period per repeat along a class
+\* (its positions are an arithmetic progression), so these carry every flag value of the class
+AMGenClassHead(g, cl, per) ==
+    IF g.struct = "cyclic"
+    THEN LET i0 == ((cl - g.s) % g.w) + 1 IN {i0 + k * g.w : k \in 0..VMin2((g.n - i0) \div g.w, per - 1)}
+    ELSE LET b == (cl - g.s) % g.w IN (b * AMGenQ(g) + 1)..VMin2(VMin2((b + 1) * AMGenQ(g), g.n), b * AMGenQ(g) + per)
+AMGenArrOK(g) == /\ g.struct \in {"cyclic", "runs"} /\ g.m = 1 /\ ~g.rev /\ g.n >= 1 /\ g.w >= 1 /\ g.w <= g.n
+                 /\ g.s >= 0 /\ g.s < g.w /\ g.st >= 1 /\ g.n <= 1100000
+
+AMGenOnePerValue(ga, idx) ==
+    /\ Cardinality({AMGenClass(ga, idx[k] + 1) : k \in DOMAIN idx}) = Len(idx)
+    /\ Len(idx) = AMGenNClasses(ga)
+AMGenDedupFailing(ga, gf, o) ==
+    IF o.err # "none" THEN {"unexpected_error"}
+    ELSE IF o.fn = "unique_values" THEN
+         (IF /\ \A k \in DOMAIN o.vals : o.vals[k] >= ga.o /\ (o.vals[k] - ga.o) % ga.st = 0
+             /\ Cardinality({o.vals[k] : k \in DOMAIN o.vals}) = Len(o.vals)
+             /\ Len(o.vals) = AMGenNClasses(ga)
+             /\ \A k \in DOMAIN o.vals : AMGenClassPositions(ga, (o.vals[k] - ga.o) \div ga.st) # {}
+          THEN {} ELSE {"values_not_one_per_value"})
+    ELSE IF ~AMIdxInRange(o.i1, ga.n) THEN {"index_out_of_range"}
+    ELSE (IF AMGenOnePerValue(ga, o.i1) THEN {} ELSE {"not_one_index_per_value"}) \cup
+         (IF o.fn \in {"rem_dup", "rem_dup_values"} /\
+             ~(\A k \in DOMAIN o.i1 : \A p \in AMGenClassHead(ga, AMGenClass(ga, o.i1[k] + 1), gf.w) :
+                    AMGenAt(gf, p) <= AMGenAt(gf, o.i1[k] + 1))
+          THEN {"flag_not_largest"} ELSE {}) \cup
+         (IF o.fn = "rem_dup_values" /\
+             ~(Len(o.vals) = Len(o.i1) /\ \A k \in DOMAIN o.i1 : o.vals[k] = AMGenArrAt(ga, o.i1[k] + 1))
+          THEN {"values_ne_arr_at_indices"} ELSE {})
+
+\* ---- scale cases ------------------------------------------------------------------
+\*   [kind |-> "smatch", g1, g2 : generators, rep]      obs: [fn, err, nrle, rle]
+\*   [kind |-> "sdedup", ga : array generator (with struct), gf : flag generator, rep]
+\*                                                       obs: [fn, err, i1, vals]
+\* rep = [t1, t2, p1, p2, o1, o2, l1, l2] as above with array layouts only and
+\*   p1 = "dense-bottom" | "dense-mid" | "dense-top": abstract value v is the v-th value of the
+\*   type t1 counted from its minimum (narrow types: the abstract values ARE positions in the
+\*   type, 1 = minimum .. 2^bits = maximum, and a wider t2 reaches below 1 / above 2^bits);
+\*   for 32/64-bit and float types the block of values is put at the bottom / around zero /
+\*   at the top of t1's range;  p2 = p1 for match, a basic placement for flags.
+AMScaleTypes == <<"i1", "u1", "i2", "u2", "i4", "i8", "u8", "f4", "f8">>
+AMTypeSize(t) == IF AMIsInt(t) /\ AMBitsOf(t) = 8 THEN 256 ELSE IF AMIsInt(t) /\ AMBitsOf(t) = 16 THEN 65536 ELSE 0   \* 0: plenty
+AMDensePlaces == <<"dense-bottom", "dense-mid", "dense-top">>
+\* second-array types for a first array of type t1: the same, or a wider one containing it
+AMScalePartners(t1) == SelectSeq(AMScaleTypes, LAMBDA t : t = t1 \/ AMNested(t1, t))
+\* abstract positions a type t2 \supseteq t1 reaches, in t1's coordinates (narrow t1): [lo, hi] or unbounded
+AMCanBelow(t1, t2) == t2 # t1 /\ AMKindOf(t2) = "i"
+AMCanAbove(t1, t2) == t2 # t1
+
+AMScaleRepOK(c, r) ==
+    /\ DOMAIN r = {"t1", "t2", "p1", "p2", "o1", "o2", "l1", "l2"}
+    /\ AMInSeq(r.t1, AMScaleTypes) /\ AMInSeq(r.p1, AMDensePlaces)
+    /\ AMInSeq(r.l1, AMArrayLayouts) /\ AMInSeq(r.l2, AMArrayLayouts)
+    /\ AMInSeq(r.o1, AMOrdersFor(r.t1, r.l1)) /\ AMInSeq(r.o2, AMOrdersFor(r.t2, r.l2))
+    /\ IF c.kind = "smatch"
+       THEN LET size == AMTypeSize(r.t1)
+                lo1 == c.g1.o   hi1 == c.g1.o + c.g1.st * (c.g1.w - 1)
+                lo2 == c.g2.o   hi2 == c.g2.o + c.g2.st * (c.g2.w - 1)
+            IN /\ AMInSeq(r.t2, AMScalePartners(r.t1)) /\ r.p2 = r.p1
+               /\ AMGenOK(c.g1) /\ AMGenOK(c.g2) /\ c.g1.n = c.g1.w /\ ~c.g2.rev /\ c.g2.w <= 2000
+               \* the values fit their types
+               /\ size > 0 => /\ lo1 >= 1 /\ hi1 <= size
+                              /\ (lo2 >= 1 \/ AMCanBelow(r.t1, r.t2)) /\ (hi2 <= size \/ AMCanAbove(r.t1, r.t2))
+                              /\ r.p1 = "dense-bottom"          \* the generator itself says where in the type
+               /\ size = 0 => /\ lo1 >= 1 /\ (lo2 >= 1 \/ r.p1 # "dense-bottom") /\ lo2 >= -2
+                              /\ (hi2 <= hi1 \/ r.p1 # "dense-top") /\ hi2 <= hi1 + 3
+       ELSE /\ AMGenArrOK(c.ga) /\ AMGenOK(c.gf) /\ c.gf.n = c.ga.n /\ c.gf.st = 1 /\ c.gf.o = 1 /\ ~c.gf.rev
+            /\ c.ga.o >= 1 /\ (AMTypeSize(r.t1) > 0 => c.ga.o + c.ga.st * (c.ga.w - 1) <= AMTypeSize(r.t1))
+            /\ (AMTypeSize(r.t1) > 0 => r.p1 = "dense-bottom")
+            /\ AMInSeq(r.t2, AMFlagTypes) /\ AMInSeq(r.p2, AMBasicPlaces)
+            /\ (r.t2 = "b1" => c.gf.w <= 2) /\ c.gf.w <= 200
+
+AMScaleFailing(c, o) ==
+    IF c.kind = "smatch" THEN
+        LET A1(i) == AMGenAt(c.g1, i)
+            Has1(v) == AMGenHas(c.g1, v)
+            A2(j) == AMGenAt(c.g2, j)
+            P == c.g2.w
+        IN IF ~IsMatchFn(o.fn) THEN {"bad_record"}
+           ELSE AMBlockMatchFailing(A1, c.g1.n, Has1, A2, P, c.g2.n \div P, c.g2.n % P, o)
+    ELSE IF o.fn \in {"unique", "unique_values", "rem_dup", "rem_dup_values"} THEN AMGenDedupFailing(c.ga, c.gf, o)
+    ELSE {"bad_record"}
 
 \* =================================================================================
 \* Implementation-shaped models (numpy_util.py, one operator per code step)
